@@ -53,8 +53,9 @@ def miri_scen(prop, table, tier, sample=40, mult=16):
     extra = ["--groupshard"] if table == "c06" else []
     sample = {"c06": 150, "c03": 40, "c04": 8, "c07": 12}.get(table, sample)
     if tier == T:
-        sample, mult = max(1, sample // 4), max(1, mult // 4)
-    return miri(f"{table}-sample", "gcmon", ["scen", "--prop", prop, "--table", table, "--sample", sample, "--shardmult", mult, "--notrack"] + extra)
+        # (the c06 matrix doubled with the leaf-child axis: sample half as densely as the others)
+        sample, mult = max(1, sample // (2 if table == "c06" else 4)), max(1, mult // 4)
+    return miri(f"{table}-sample", "gcmon", ["scen", "--prop", prop, "--table", table, "--sample", sample, "--shardmult", mult, "--notrack"] + extra, timeout=2400 if tier == T else 1500)
 
 
 def miri_rnd(prop, tier, profile="general", extra=(), arenas=1):
